@@ -109,6 +109,29 @@ func ruleR9() *Rule {
 				rel = up
 				inChain[up] = true
 			}
+			// … and the steps it is split into: unexported helpers that only functions of the chain call
+			for changed := true; changed; {
+				changed = false
+				for _, f := range p.ZapFuncs {
+					if inChain[f] || f.Parent() != nil || (f.Object() != nil && f.Object().Exported()) {
+						continue
+					}
+					cl := p.callersOf(f)
+					if len(cl) == 0 {
+						continue
+					}
+					all := true
+					for _, cs := range cl {
+						if !inChain[rootParent(cs.Parent())] {
+							all = false
+						}
+					}
+					if all {
+						inChain[f] = true
+						changed = true
+					}
+				}
+			}
 			rname := funcShortName(rel)
 			// (c) the descriptor of a Segment is closed only by the releaser
 			for i, cs := range fcloseSites {
@@ -437,6 +460,24 @@ func ruleR9() *Rule {
 
 			// (e) Open starts the count at 1
 			if op := c.method("ZapPlugin", "Open"); op != nil {
+				// (the segment may be built by a helper that Open shares with another entry point: the
+				// function that allocates the Segment is where the count starts)
+				hasAlloc := func(f *ssa.Function) bool {
+					found := false
+					eachInstr(f, func(_ *ssa.BasicBlock, in ssa.Instruction) {
+						if al, ok := in.(*ssa.Alloc); ok && al.Heap && isNamed(al.Type(), zapPkgPath, "Segment") {
+							found = true
+						}
+					})
+					return found
+				}
+				if !hasAlloc(op) {
+					for _, cs := range callSites(op) {
+						if g := staticCallee(cs); g != nil && p.InZap(g) && len(g.Blocks) > 0 && hasAlloc(g) {
+							op = g
+						}
+					}
+				}
 				found := false
 				var val int64 = -1
 				eachInstr(op, func(_ *ssa.BasicBlock, in ssa.Instruction) {
